@@ -21,10 +21,25 @@ invalid namespace (never another exception, never a result, never a hang).
 
 Correspondence: every case is also evaluated by the compiler model inside Coq (check_case of
 coq/Dsl/Model.v) and compared: component ids, reference sets, argument strings; on failure the exception
-type and the SET of error locations."""
+type and the SET of error locations.
+
+Entry points and value kinds (coq/Dsl/Load.v): a namespace is compiled (a) directly, (b) directly with
+override_entrypoint_args, (c) through experiment.model.conf.DSLExperimentConfiguration without / with user
+variable files and validate True / False (a document written to a scratch directory).  Parameter values are
+strings, NUMBERS (int / float), null and DICTIONARIES (typed tokens V): a typed value is forwarded whole by a
+sole "%(p)s" and interpolated as its str() otherwise; a dictionary is only ever forwarded whole and ends as the
+environment of a component (command.environment: "%(p)s").  They appear as declared defaults, as arguments of
+steps, in entrypoint.execute[0].args, in the override and in the user variables.  The compiled FlowIR's global
+variables are compared with coq/Dsl/Load.v [globals] (check_globals), every result goes through
+FlowIRConcrete.validate(), and a family of malformed DOCUMENTS (entrypoint missing / empty / unknown template,
+schema faults) must be rejected with a DSLInvalidError (possibly wrapped in ExperimentInvalidConfigurationError)
+that names a location, through every entry point."""
 import json
+import os
 import re
+import shutil
 import signal
+import tempfile
 
 from common import clist, cstr, cnat, cpair, copt
 
@@ -34,14 +49,19 @@ ASSUMPTIONS = [
     'token level: the tokenisation of strings by the regular expressions of dsl.py (OutputReferenceVanilla/Nested, '
     'ParameterPattern, LegacyReferencePattern, SignatureNamePattern) and pydantic validation are glue, exercised only '
     'through the renderer of harness/c06.py (several spellings per token) and the correspondence run',
-    'fragment: all values are strings; a partial reference (<a/b> without :method) is the sole content of a value; '
+    'fragment: values are strings, numbers (int/float; read as their Python str() when interpolated), null (entry '
+    'instance only) and dictionaries (forwarded whole, used as command.environment only); booleans and lists are not '
+    'legal ParameterValueType (a list is a schema fault, checked through the configuration loader only); '
+    'a partial reference (<a/b> without :method) is the sole content of a value; '
     'literal text avoids < > % " / : ; no "replica", no workflowAttributes/replicate, no environments, no key outputs, '
-    'no legacy "input/file":ref references, parameter defaults are literal text, no step is called entry-instance',
+    'no legacy "input/file":ref references, parameter defaults are literal text or typed values, no step is called '
+    'entry-instance; user variable files hold a global section of scalars only',
     'the worklist of discover_all_instances_of_templates is modelled as the equivalent depth-first recursion '
     '(order observable through de-duplicated names and checked by the correspondence)',
 ]
 HEADER = 'Require Import V.Lib.PyStr V.Dsl.Model.\nOpen Scope string_scope.\nOpen Scope list_scope.'
 SPEC_HEADER = 'Require Import V.Lib.PyStr V.Dsl.Model V.Dsl.Spec.\nOpen Scope string_scope.\nOpen Scope list_scope.'
+LOAD_HEADER = 'Require Import V.Lib.PyStr V.Dsl.Model V.Dsl.Load.\nOpen Scope string_scope.\nOpen Scope list_scope.'
 
 METHODS = ['ref', 'output', 'copy', 'link']
 
@@ -51,14 +71,37 @@ def L(s): return ('L', s)
 def P(x): return ('P', x)
 def O(path, m=None): return ('O', tuple(path), m)
 def PO(x, path, m=None): return ('PO', x, tuple(path), m)
+def V(x): return ('V', x)      # a typed YAML value: int / float / None / dict
+
+
+def vstr(x):
+    """the token reading of a typed value: what _replace_many_parameter_references interpolates (str());
+    a dictionary is never interpolated, its reading is an opaque canonical text"""
+    if isinstance(x, dict):
+        return json.dumps(x, sort_keys=True)
+    return str(x)
+
+
+def vkind(x):
+    if isinstance(x, dict):
+        return 'KDict'
+    if x is None:
+        return 'KNone'
+    if isinstance(x, str):
+        return 'KStr'
+    return 'KNum'
 
 
 def render_value(v, sp=0, in_component=False):
-    """token list -> DSL string; sp selects the spelling of references"""
+    """token list -> DSL string; sp selects the spelling of references; a sole typed token -> the typed value"""
+    if len(v) == 1 and v[0][0] == 'V':
+        return v[0][1]
     out = []
     for t in v:
         if t[0] == 'L':
             out.append(t[1])
+        elif t[0] == 'V':
+            out.append(vstr(t[1]))
         elif t[0] == 'P':
             out.append('%%(%s)s' % t[1])
         elif t[0] == 'O':
@@ -115,10 +158,33 @@ def to_doc(ns):
     for c in ns['comps']:
         d = {'signature': {'name': c['name'], 'parameters': params(c['params'])},
              'command': {'executable': 'echo', 'arguments': render_value(c['args'], 0, True)}}
+        if c.get('envp'):
+            d['command']['environment'] = '%%(%s)s' % c['envp']
         if c['vars']:
             d['variables'] = {v: 'val-' + v for v in c['vars']}
         doc['components'].append(d)
     return doc
+
+
+def update(a, b):
+    """dict.update on association lists"""
+    db = dict(b)
+    return [(n, db.get(n, v)) for n, v in a] + [(n, v) for n, v in b if n not in dict(a)]
+
+
+def effective(ns, uservars=None):
+    """the namespace the compiler sees: entrypoint arguments updated by the override / the user variables"""
+    ea = list(ns['eargs'])
+    if uservars is not None:
+        ea = update(ea, update(ea, uservars))
+    elif ns.get('override') is not None:
+        ea = update(ea, ns['override'])
+    if uservars is None and ns.get('override') is None:
+        return ns
+    out = dict(ns)
+    out['eargs'] = ea
+    out['override'] = None
+    return out
 
 
 # ------------------------------------------------------------------ implementation driver
@@ -130,7 +196,34 @@ def _alarm(*_a):
     raise _Hang()
 
 
-def drive(doc):
+def _collect(f, errs):
+    comps = []
+    for c in f.get_components():
+        env = c.get('command', {}).get('environment')
+        if env is not None:
+            env = {} if env == 'none' else dict(f.get_environment(env))
+        comps.append([int(c.get('stage', 0)), c['name'], sorted(c.get('references', [])),
+                      c.get('command', {}).get('arguments', ''), env])
+    gl = f.get_platform_global_variables('default')
+    return {'kind': 'ok', 'comps': sorted(comps, key=lambda c: json.dumps(c, sort_keys=True)),
+            'globals': sorted([n, vkind(v), vstr(v)] for n, v in gl.items()),
+            'validate': [type(e).__name__ + ': ' + str(e)[:200] for e in errs]}
+
+
+def _rejection(e):
+    import experiment.model.errors as E
+    d = e if isinstance(e, E.DSLInvalidError) else getattr(e, 'underlyingError', None)
+    if isinstance(d, E.DSLInvalidError):
+        locs = sorted(set(tuple(x.location) for x in d.underlying_errors), key=lambda t: json.dumps(t))
+        return {'kind': 'dsl', 'locs': [list(x) for x in locs]}
+    if isinstance(e, _Hang):
+        return {'kind': 'exc', 'type': 'HANG(>20s)'}
+    u = getattr(e, 'underlyingError', None)
+    return {'kind': 'exc', 'type': type(e).__name__ + ('(%s)' % type(u).__name__ if u is not None else '')}
+
+
+def drive(doc, override=None):
+    """namespace_to_flowir(Namespace(**doc), override_entrypoint_args=override) + FlowIRConcrete.validate()"""
     import experiment.model.frontends.dsl as D
     import experiment.model.errors as E
     signal.signal(signal.SIGALRM, _alarm)
@@ -138,20 +231,65 @@ def drive(doc):
     try:
         try:
             nsp = D.Namespace(**doc)
-            f = D.namespace_to_flowir(nsp)
-            errs = f.validate()
-            comps = []
-            for c in f.get_components():
-                comps.append([int(c.get('stage', 0)), c['name'], sorted(c.get('references', [])),
-                              c.get('command', {}).get('arguments', '')])
-            return {'kind': 'ok', 'comps': sorted(comps), 'validate': [type(e).__name__ + ': ' + str(e)[:200] for e in errs]}
+            if override is None:
+                f = D.namespace_to_flowir(nsp)
+            else:
+                f = D.namespace_to_flowir(nsp, override_entrypoint_args=dict(override))
+            return _collect(f, f.validate())
         except E.DSLInvalidError as e:
-            locs = sorted(set(tuple(x.location) for x in e.underlying_errors), key=lambda t: json.dumps(t))
-            return {'kind': 'dsl', 'locs': [list(x) for x in locs]}
-        except _Hang:
-            return {'kind': 'exc', 'type': 'HANG(>20s)'}
+            return _rejection(e)
+        except _Hang as e:
+            return _rejection(e)
         except Exception as e:  # noqa
             return {'kind': 'exc', 'type': type(e).__name__}
+    finally:
+        signal.alarm(0)
+
+
+_SCRATCH = []
+
+
+def _scratch():
+    if not _SCRATCH:
+        _SCRATCH.append(tempfile.mkdtemp(prefix='c06-'))
+    return _SCRATCH[0]
+
+
+def _cleanup():
+    while _SCRATCH:
+        shutil.rmtree(_SCRATCH.pop(), ignore_errors=True)
+
+
+def drive_conf(doc, uservars, validate, text=None):
+    """experiment.model.conf.DSLExperimentConfiguration on the document written to a scratch file, with the user
+    variables (None: no variable files; a dict: the content of one variables file) -- the loader of elaunch/etest.
+    A rejection counts as DSLInvalidError when it is one or wraps one (ExperimentInvalidConfigurationError)."""
+    import yaml
+    import experiment.model.conf as C
+    root = _scratch()
+    path = os.path.join(root, 'dsl.yaml')
+    with open(path, 'w') as fh:
+        if text is not None:
+            fh.write(text)
+        else:
+            yaml.safe_dump(doc, fh, sort_keys=False)
+    files = None
+    if uservars is not None:
+        vp = os.path.join(root, 'variables.yaml')
+        with open(vp, 'w') as fh:
+            yaml.safe_dump(uservars, fh, sort_keys=False)
+        files = [vp]
+    signal.signal(signal.SIGALRM, _alarm)
+    signal.alarm(30)
+    try:
+        try:
+            cf = C.DSLExperimentConfiguration(path=path, variable_files=files, is_instance=False,
+                                              createInstanceFiles=False, primitive=True, validate=validate,
+                                              platform=None, system_vars=None)
+            f = cf.get_flowir_concrete()
+            return _collect(f, f.validate())
+        except Exception as e:  # noqa
+            return _rejection(e)
     finally:
         signal.alarm(0)
 
@@ -183,7 +321,7 @@ def spec(ns):
     def ev(v, env, loc, siblings, keep=()):
         out = []
         for t in v:
-            if t[0] == 'L':
+            if t[0] in ('L', 'V'):
                 out.append(t)
             elif t[0] == 'P':
                 if t[1] in keep:
@@ -269,7 +407,13 @@ def spec(ns):
                     continue
                 pr = producer(t[1])
                 refs.add((pr, t[1][len(pr):], t[2]))
-        res[loc] = (args, refs, producer)
+        envd = None
+        if c.get('envp'):
+            ev_ = env.get(c['envp'])
+            if not (ev_ is not None and len(ev_) == 1 and ev_[0][0] == 'V' and isinstance(ev_[0][1], dict)):
+                raise Invalid('the environment of a component is not a dictionary')
+            envd = ev_[0][1]
+        res[loc] = (args, refs, producer, envd)
     return res
 
 
@@ -304,18 +448,20 @@ def predicate(ns, impl):
     by_id = {(c[0], c[1]): c for c in comps}
 
     def ok_one(l, beta):
-        args, refs, producer = want[l]
+        args, refs, producer, envd = want[l]
         s = ''
         for t in args:
             if t[0] == 'L':
                 s += t[1]
+            elif t[0] == 'V':
+                s += vstr(t[1])
             elif t[0] == 'P':
                 s += '%%(%s)s' % t[1]
             else:
                 pr = producer(t[1])
                 s += _ref_str(beta[pr], t[1][len(pr):], t[2])
         c = by_id[beta[l]]
-        return c[3] == s and set(c[2]) == set(_ref_str(beta[pr], f, m) for pr, f, m in refs)
+        return c[3] == s and set(c[2]) == set(_ref_str(beta[pr], f, m) for pr, f, m in refs) and c[4] == envd
 
     # producers before consumers, so that each instance is checked as soon as it is named
     order, placed = [], set()
@@ -349,7 +495,7 @@ def predicate(ns, impl):
     except OverflowError:
         return 'INCONCLUSIVE'
     if not found:
-        return 'no naming of the instances makes arguments and references of the compiled components agree with the specification'
+        return 'no naming of the instances makes arguments, references and environments of the compiled components agree with the specification'
     return None
 
 
@@ -359,6 +505,8 @@ def c_tok(t):
         return '(Lit %s)' % cstr(t[1])
     if t[0] == 'P':
         return '(Param %s)' % cstr(t[1])
+    if t[0] == 'V':
+        return '(Lit %s)' % cstr(vstr(t[1]))
     if t[0] == 'O':
         return '(Out %s %s)' % (clist(t[1], cstr), copt(t[2], cstr))
     return '(POut %s %s %s)' % (cstr(t[1]), clist(t[2], cstr), copt(t[3], cstr))
@@ -379,6 +527,27 @@ def c_ns(ns):
         cstr(ns['entry']), c_args(ns['eargs']), wfs, comps)
 
 
+def tkind(v):
+    return vkind(v[0][1]) if len(v) == 1 and v[0][0] == 'V' else 'KStr'
+
+
+def c_kval(v): return '(%s, %s)' % (tkind(v), c_val(v))
+def c_kargs(a): return clist(a, lambda nv: cpair(cstr(nv[0]), c_kval(nv[1])))
+
+
+def c_globals_case(ns, impl):
+    """(declared parameters of the entry template, entrypoint arguments, override, global variables of the FlowIR)"""
+    t = [x for x in ns['comps'] + ns['wfs'] if x['name'] == ns['entry']][0]
+    return '(%s, %s, %s, %s)' % (
+        clist(t['params'], lambda p: cpair(cstr(p[0]), copt(p[1], c_kval))), c_kargs(ns['eargs']),
+        copt(ns.get('override'), c_kargs),
+        clist(impl['globals'], lambda g: cpair(cstr(g[0]), '(%s, [Lit %s])' % (g[1], cstr(g[2])))))
+
+
+def c_uvars(uv):
+    return 'NoFiles' if uv is None else '(Files (Some %s))' % c_args(uv)
+
+
 def c_loc(l):
     return clist(l, lambda x: '(LN %s)' % cnat(x) if isinstance(x, int) else '(LS %s)' % cstr(str(x)))
 
@@ -397,6 +566,8 @@ STEP_NAMES = ['a', 'b', 'c', 'gen', 'a-I', 'b-I', 'stage1.b', 'stage0.a', 'a-II'
 PARAM_NAMES = ['p', 'q', 'r', 'msg', 'in.put', 'o-p', 'x', 'y']
 WORDS = ['cat', 'run', '-n', 'hello world', 'v1.2', 'x', 'out_dir', '--flag', 'abc-def', '42']
 FILES = [['out.txt'], ['d', 'f.dat'], ['results'], []]
+NUMS = [0, 7, 42, -3, 1.5, 0.0, 2.25]
+ENVS = [{}, {'A': 'b'}, {'DEFAULTS': 'PATH', 'WHO': 'me'}, {'OMP_NUM_THREADS': '4'}]
 
 
 class Gen(object):
@@ -415,6 +586,18 @@ class Gen(object):
     def lit(self):
         return L(' ' + self.rng.choice(WORDS) + ' ')
 
+    def text_default(self, entry=False):
+        """a declared default of a text parameter: literal text, a number, (entry instance only) null"""
+        x = self.rng.random()
+        if x < 0.25:
+            return [V(self.rng.choice(NUMS))]
+        if entry and x < 0.35:
+            return [V(None)]
+        return [L(self.rng.choice(WORDS))]
+
+    def env_value(self):
+        return [V(dict(self.rng.choice(ENVS)))]
+
     def gen_component(self, name):
         r = self.rng
         n = r.choice([0, 1, 1, 2, 2, 3, 2])
@@ -425,7 +608,7 @@ class Gen(object):
             kind = r.choice(['text', 'text', ('ref', 'comp'), 'cref'])
             default = None
             if kind == 'text' and r.random() < 0.4:
-                default = [L(r.choice(WORDS))]
+                default = self.text_default()
             params.append((pn, kind, default))
             if kind == 'text':
                 if r.random() < 0.85:
@@ -443,7 +626,12 @@ class Gen(object):
             args += [L(' '), P(v)]
         if r.random() < 0.5:
             args.append(self.lit())
-        t = {'kind': 'c', 'level': 0, 'name': name, 'params': params, 'vars': cvars, 'args': args}
+        envp = None
+        if r.random() < 0.3:
+            # a dictionary parameter that becomes the environment of the task (command.environment: "%(envp)s")
+            envp = r.choice([x for x in PARAM_NAMES + ['env', 'e.v'] if x not in names])
+            params.insert(r.randrange(len(params) + 1), (envp, 'dict', self.env_value() if r.random() < 0.5 else None))
+        t = {'kind': 'c', 'level': 0, 'name': name, 'params': params, 'vars': cvars, 'args': args, 'envp': envp}
         self.templates[name] = t
         self.comps.append(t)
 
@@ -476,7 +664,9 @@ class Gen(object):
         if not entry:
             for pn in r.sample(PARAM_NAMES, r.choice([0, 1, 2, 2, 3])):
                 kr = r.random()
-                if kr < 0.5:
+                if kr < 0.12:
+                    kind = 'dict'
+                elif kr < 0.5:
                     kind = 'text'
                 elif kr < 0.8 or not self.wfs:
                     kind = ('ref', 'comp')
@@ -484,11 +674,17 @@ class Gen(object):
                     kind = ('ref', r.choice(self.wfs)['name'])
                     if not self.comp_paths(kind[1]):
                         kind = ('ref', 'comp')
-                default = [L(r.choice(WORDS))] if (kind == 'text' and r.random() < 0.35) else None
+                default = self.text_default() if (kind == 'text' and r.random() < 0.35) else None
+                if kind == 'dict' and r.random() < 0.35:
+                    default = self.env_value()
                 params.append((pn, kind, default))
         else:
-            for pn in r.sample(PARAM_NAMES, r.choice([0, 1, 2])):
-                params.append((pn, 'text', [L(r.choice(WORDS))] if r.random() < 0.5 else None))
+            # the ENTRY template: text (string / number / null) and dictionary parameters, defaulted or not
+            for pn in r.sample(PARAM_NAMES, r.choice([0, 1, 2, 2, 3])):
+                if r.random() < 0.3:
+                    params.append((pn, 'dict', self.env_value() if r.random() < 0.5 else None))
+                else:
+                    params.append((pn, 'text', self.text_default(entry=True) if r.random() < 0.5 else None))
         execs = []
         for i, (s, tn) in enumerate(steps):
             t = self.templates[tn]
@@ -501,10 +697,12 @@ class Gen(object):
                         v = [self.lit()]
                     else:
                         return None     # cannot satisfy a reference parameter here
-                if kind == 'text' and default is not None and r.random() < 0.5:
+                if kind in ('text', 'dict') and default is not None and r.random() < 0.5:
                     continue            # defaulted
                 if kind == 'text' and default is not None and r.random() < 0.3:
                     v = [L('')]         # an explicitly supplied EMPTY argument must still override the default
+                if kind == 'dict' and default is not None and r.random() < 0.3:
+                    v = [V({})]         # ... and so must an explicitly supplied EMPTY dictionary
                 args.append((pn, v))
             r.shuffle(args)
             execs.append((s, args))
@@ -557,7 +755,16 @@ class Gen(object):
         if kind == 'cref':
             c = self.complete_ref(params, earlier)
             return [c] if c else None
+        if kind == 'dict':
+            dicts = [pn for pn, k, _d in params if k == 'dict']
+            if dicts and r.random() < 0.75:
+                return [P(r.choice(dicts))]     # forwarded whole
+            return self.env_value()
         texts = [pn for pn, k, _d in params if k == 'text']
+        if r.random() < 0.08:
+            return [V(r.choice(NUMS))]          # a number written as such in the arguments of a step
+        if texts and r.random() < 0.08:
+            return [P(r.choice(texts))]         # a (possibly typed) parameter forwarded whole
         v = []
         for _ in range(r.choice([1, 1, 2, 3])):
             x = r.random()
@@ -572,16 +779,17 @@ class Gen(object):
         return v[:-1]
 
 
-def strip(ns_templates, entry, eargs, sp):
+def strip(ns_templates, entry, eargs, sp, override=None):
     wfs, comps = [], []
     for t in ns_templates:
         ps = [(n, d) for n, _k, d in t['params']]
         if t['kind'] == 'w':
             wfs.append({'name': t['name'], 'params': ps, 'steps': list(t['steps']), 'exec': list(t['exec'])})
         else:
-            comps.append({'name': t['name'], 'params': ps, 'vars': list(t['vars']), 'args': list(t['args'])})
+            comps.append({'name': t['name'], 'params': ps, 'vars': list(t['vars']), 'args': list(t['args']),
+                          'envp': t.get('envp')})
     kinds = {t['name']: {n: (k if isinstance(k, str) else 'ref') for n, k, _d in t['params']} for t in ns_templates}
-    return {'entry': entry, 'eargs': eargs, 'wfs': wfs, 'comps': comps, 'sp': sp, 'kinds': kinds}
+    return {'entry': entry, 'eargs': eargs, 'wfs': wfs, 'comps': comps, 'sp': sp, 'kinds': kinds, 'override': override}
 
 
 def gen_namespace(rng):
@@ -609,15 +817,33 @@ def gen_namespace(rng):
                 break
         if e is None:
             continue
+        def entry_value(kind):
+            if kind == 'dict':
+                return g.env_value()
+            x = rng.random()
+            if x < 0.2:
+                return [V(rng.choice(NUMS))]
+            if x < 0.27:
+                return [V(None)]
+            if x < 0.32:
+                return [L('')]
+            return [L(rng.choice(WORDS))]
+        # where the value of a parameter of the entry instance comes from: its declared default,
+        # entrypoint.execute[0].args, or override_entrypoint_args (which wins)
+        override = None
+        if rng.random() < 0.3:
+            override = [(pn, entry_value(k)) for pn, k, _d in e['params'] if rng.random() < 0.6]
+            rng.shuffle(override)
         eargs = []
-        for pn, _k, d in e['params']:
-            if d is None or rng.random() < 0.5:
-                eargs.append((pn, [L(rng.choice(WORDS))]))
+        for pn, k, d in e['params']:
+            overridden = override is not None and pn in dict(override)
+            if (d is None and not (overridden and rng.random() < 0.5)) or rng.random() < 0.5:
+                eargs.append((pn, entry_value(k)))
         order = g.wfs[:]
         rng.shuffle(order)
         comps = g.comps[:]
         rng.shuffle(comps)
-        return strip(order + comps, 'main', eargs, rng.choice([0, 0, 1, 2, 3, 5, 6, 7]))
+        return strip(order + comps, 'main', eargs, rng.choice([0, 0, 1, 2, 3, 5, 6, 7]), override)
     raise RuntimeError('generator failed')
 
 
@@ -634,7 +860,8 @@ def reachable_wfs(ns):
 
 KINDS = ['unknown_template', 'cycle', 'missing_arg', 'unknown_arg', 'unknown_param', 'non_sibling',
          'not_executed', 'no_step', 'dup_template', 'unknown_entry', 'ref_to_workflow',
-         'dangling_in_workflow', 'digit_name', 'dup_execute', 'entry_unknown_arg', 'entry_ref']
+         'dangling_in_workflow', 'digit_name', 'dup_execute', 'entry_unknown_arg', 'entry_ref',
+         'override_unknown', 'entry_missing_arg']
 
 
 def mutate(ns, rng, kind=None):
@@ -703,12 +930,25 @@ def mutate(ns, rng, kind=None):
         w['exec'].append((tg, list(args)))
     elif kind == 'entry_unknown_arg':
         ns['eargs'].append(('zz', [L('v')]))
+    elif kind == 'override_unknown':
+        ns['override'] = (ns['override'] or []) + [('zz', [rng.choice([L('v'), V(3), V({'A': 'b'})])])]
+    elif kind == 'entry_missing_arg':
+        e = tmap[ns['entry']]
+        req = [p[0] for p in e['params'] if p[1] is None]
+        if not req:
+            return None
+        pn = rng.choice(req)
+        ns['eargs'] = [a for a in ns['eargs'] if a[0] != pn]
+        if ns['override'] is not None:
+            ns['override'] = [a for a in ns['override'] if a[0] != pn]
     elif kind == 'entry_ref':
         e = tmap[ns['entry']]
         if not e['params']:
             return None
         pn = e['params'][0][0]
         ns['eargs'] = [a for a in ns['eargs'] if a[0] != pn] + [(pn, [O(['a'], 'ref')])]
+        if ns['override'] is not None:
+            ns['override'] = [a for a in ns['override'] if a[0] != pn]
     return ns, kind
 
 
@@ -738,12 +978,19 @@ def _norm(ns):
         c['args'] = [_t(t) for t in c['args']]
         c['params'] = [(p[0], None if p[1] is None else [_t(t) for t in p[1]]) for p in c['params']]
     ns['eargs'] = [(a[0], [_t(t) for t in a[1]]) for a in ns['eargs']]
+    ns['override'] = None if ns.get('override') is None else [(a[0], [_t(t) for t in a[1]]) for a in ns['override']]
+    for c in ns['comps']:
+        c.setdefault('envp', None)
     return ns
 
 
 # ------------------------------------------------------------------ corpus: witnesses of the repaired defects
 def _c(name, params, args, cvars=()):
     return {'name': name, 'params': params, 'vars': list(cvars), 'args': args}
+
+
+def _ce(name, params, args, envp):
+    return {'name': name, 'params': params, 'vars': [], 'args': args, 'envp': envp}
 
 
 def _w(name, params, steps, execs):
@@ -782,6 +1029,33 @@ CORPUS = [
                            _w('inner-consume', [('producer', None)], [('consumer', 'echo')],
                               [('consumer', [('message', [PO('producer', ['outputs', 'msg.txt'], 'output')])])])],
                    'comps': [_c('generate', [], [L('-c hi')]), _c('echo', [('message', None)], [P('message')])]}),
+    # value kinds on the ENTRY template: a dictionary (declared default) forwarded whole through a nested workflow to
+    # the environment of the tasks, a number, a null; the FlowIR must validate (no dictionary / null global variable)
+    ('entry_dict_default', {'entry': 'main', 'eargs': [('n', [V(0)])], 'sp': 0,
+                            'wfs': [_w('main', [('env', [V({})]), ('n', None), ('s', [V(None)]), ('t', [L('hi')])],
+                                       [('first', 'say'), ('nested', 'inner')],
+                                       [('first', [('env', [P('env')]), ('msg', [P('t'), L(' '), P('n'), L(' '), P('s')])]),
+                                        ('nested', [('env', [P('env')]), ('src', [O(['first'])]), ('n', [P('n')])])]),
+                                    _w('inner', [('env', None), ('src', None), ('n', None)], [('second', 'say'), ('third', 'say')],
+                                       [('second', [('env', [P('env')]), ('msg', [P('n'), L(' '), PO('src', [], 'output')])]),
+                                        ('third', [('msg', [O(['second'], 'ref')])])])],
+                            'comps': [_ce('say', [('msg', None), ('env', [V({'DEFAULTS': 'PATH', 'WHO': 'me'})])],
+                                          [L('echo '), P('msg')], 'env')]}),
+    ('entry_dict_eargs', {'entry': 'main', 'eargs': [('env', [V({'A': 'b'})]), ('n', [V(1.5)])], 'sp': 0,
+                          'wfs': [_w('main', [('env', None), ('n', [V(3)])], [('first', 'say')],
+                                     [('first', [('env', [P('env')]), ('msg', [P('n')])])])],
+                          'comps': [_ce('say', [('msg', None), ('env', None)], [L('echo '), P('msg')], 'env')]}),
+    ('entry_dict_override', {'entry': 'main', 'eargs': [('n', [L('x')])], 'sp': 0,
+                             'override': [('env', [V({'A': 'b'})]), ('n', [V(7)])],
+                             'wfs': [_w('main', [('env', None), ('n', None)], [('first', 'say')],
+                                        [('first', [('env', [P('env')]), ('msg', [L('-n '), P('n')])])])],
+                             'comps': [_ce('say', [('msg', None), ('env', [V({})])], [L('echo '), P('msg')], 'env')]}),
+    # the entry template is a Component with a dictionary parameter
+    ('entry_component_dict', {'entry': 'say', 'eargs': [('msg', [V(42)])], 'sp': 0, 'override': [('env', [V({'A': 'b'})])],
+                              'wfs': [], 'comps': [_ce('say', [('msg', None), ('env', [V({})])], [L('echo '), P('msg')], 'env')]}),
+    # F6e (open): the only component step carries stage 1 -- compiles and validates, cannot be loaded
+    ('F6e_stage_gap', {'entry': 'main', 'eargs': [], 'sp': 0,
+                       'wfs': [_w('main', [], [('stage1.b', 'c')], [('stage1.b', [])])], 'comps': [_c('c', [], [L('hi')])]}),
 ]
 
 
@@ -795,13 +1069,37 @@ def c_spec(want):
         clist(sorted(want[l][1]), lambda r: '(%s, %s, %s)' % (clist(r[0], cstr), clist(r[1], cstr), cstr(r[2])))))
 
 
+def stage_gap(want):
+    """class of finding F6e: the stage indexes of the component instances are not 0..k"""
+    st = set()
+    for l in want:
+        m = _NAME.fullmatch(l[-1])
+        st.add(int(m.group('stage') or 0) if m else 0)
+    return sorted(st) != list(range(len(st)))
+
+
 def _explore(ctx, cases):
-    terms, sterms, kept = [], [], []
-    for label, ns in cases:
+    """cases: (label, ns) compiled directly (with ns['override'] when there is one), or
+    (label, ns, ('conf', uservars, validate)) loaded through DSLExperimentConfiguration (uservars: None = no variable
+    files, else the (name, value) pairs of the global section of one variables file)"""
+    terms, sterms, kept, s_kept = [], [], [], []
+    ov_terms, ov_kept, ld_terms, ld_kept, gl_terms, gl_kept = [], [], [], [], [], []
+    for case in cases:
+        label, ns = case[0], case[1]
+        mode = case[2] if len(case) > 2 else None
         doc = to_doc(ns)
-        impl = drive(doc)
+        if mode is None:
+            ov = ns.get('override')
+            impl = drive(doc, None if ov is None else [(n, render_value(v)) for n, v in ov])
+            eff = effective(ns)
+        else:
+            uv = mode[1]
+            impl = drive_conf(doc, None if uv is None else {'global': {n: render_value(v) for n, v in uv}}, mode[2])
+            eff = effective(ns, uv)
+            ctx.count('through DSLExperimentConfiguration: %s variable files, validate=%s'
+                      % ('no' if uv is None else 'with', mode[2]))
         try:
-            want = spec(ns)
+            want = spec(eff)
             valid = True
         except Invalid:
             want, valid = None, False
@@ -816,29 +1114,67 @@ def _explore(ctx, cases):
             steps = [l[-1] for l in want]
             if len(set(steps)) < len(steps):
                 ctx.count('duplicate step names')
-        ctx.case(json.dumps(doc, sort_keys=True), (valid and ninst >= 2 and nrefs >= 1) or not valid)
+            if any(v[3] for v in want.values()):
+                ctx.count('a component runs in a dictionary environment received through its parameters')
+            if ns.get('override') is not None:
+                ctx.count('override_entrypoint_args given')
+            t = [x for x in eff['comps'] + eff['wfs'] if x['name'] == eff['entry']][0]
+            dflt = dict(t['params'])
+            for n, v in [(n, dict(eff['eargs']).get(n, dflt[n])) for n in dflt]:
+                ctx.count('entry parameter value: %s' % tkind(v))
+        ctx.case(json.dumps([doc, ns.get('override'), mode], sort_keys=True, default=str),
+                 (valid and ninst >= 2 and nrefs >= 1) or not valid)
         ctx.sample({'doc': doc, 'impl': impl}, limit=3)
-        why = predicate(ns, impl)
+        why = predicate(eff, impl)
         if why == 'INCONCLUSIVE':
             ctx.count('predicate search budget exhausted (correspondence only)')
             why = None
         if why is not None:
-            ctx.fail({'label': label, 'ns': ns, 'doc': doc, 'impl': impl}, why, ())
-        terms.append(cpair(c_ns(ns), c_impl(impl)))
-        sterms.append(cpair(c_ns(ns), c_spec(want)))
-        kept.append((label, ns, doc, impl))
+            classes = []
+            if mode is not None and valid and stage_gap(want) and impl['kind'] == 'exc':
+                classes.append('stage_indexes_not_contiguous')
+            ctx.fail({'label': label, 'ns': ns, 'mode': mode, 'doc': doc, 'impl': impl}, why, classes)
+            if classes:
+                continue    # the loader's answer is the finding; the compiler itself is compared on the direct cases
+        if mode is None and ns.get('override') is None:
+            terms.append(cpair(c_ns(ns), c_impl(impl)))
+            kept.append((label, ns, doc, impl))
+        elif mode is None:
+            ov_terms.append('(Some %s, Some %s, %s)' % (c_ns(ns), c_args(ns['override']), c_impl(impl)))
+            ov_kept.append((label, ns, doc, impl, mode))
+        else:
+            ld_terms.append('(%s, Some %s, %s, %s)' % ('true' if mode[2] else 'false', c_ns(ns), c_uvars(mode[1]), c_impl(impl)))
+            ld_kept.append((label, ns, doc, impl, mode))
+        sterms.append(cpair(c_ns(eff), c_spec(want)))
+        s_kept.append((label, eff, doc))
+        if mode is None and impl['kind'] == 'ok':
+            gl_terms.append(c_globals_case(ns, impl))
+            gl_kept.append((label, ns, doc, impl, mode))
     bad = ctx.model_mismatches(HEADER, terms, 'check_case', chunk=40)
     for i in bad:
         label, ns, doc, impl = kept[i]
         model = ctx.model_eval(HEADER, 'compile %s' % c_ns(ns)) if len(ctx.disagreements) < 3 else ''
         ctx.disagree({'label': label, 'ns': ns, 'doc': doc}, impl, model[-1500:],
                      'compile (coq/Dsl/Model.v) = namespace_to_flowir on components/references/arguments/error locations')
+    for tms, kp, fn, nm, what in (
+            (ov_terms, ov_kept, 'check_ov', 'override',
+             'compile_ov (coq/Dsl/Load.v) = namespace_to_flowir(namespace, override_entrypoint_args)'),
+            (ld_terms, ld_kept, 'check_load', 'load',
+             'load (coq/Dsl/Load.v) = DSLExperimentConfiguration (variable files, validate) on components/references/arguments/error locations'),
+            (gl_terms, gl_kept, 'check_globals', 'globals',
+             'globals (entry_kargs ...) (coq/Dsl/Load.v) = the global variables of the compiled FlowIR (names, kinds, values), all acceptable to the validator')):
+        if not tms:
+            continue
+        bad = ctx.model_mismatches(LOAD_HEADER, tms, fn, chunk=40, name=nm)
+        for i in bad:
+            label, ns, doc, impl, mode = kp[i]
+            ctx.disagree({'label': label, 'ns': ns, 'mode': mode, 'doc': doc}, impl, tms[i][-1200:], what)
     # the Coq specification spec_ns (coq/Dsl/Spec.v, the object of the refinement theorems) is tied twice: it must
     # return what the Python flattener [spec] (the predicate above, evaluated on the implementation) returns, and the
     # compiler model must refine it (same instances, rendered arguments, producer/file/method triples; Err <-> invalid)
     bad = ctx.model_mismatches(SPEC_HEADER, sterms, 'check_spec', chunk=40, name='spec')
     for i in bad:
-        label, ns, doc, impl = kept[i]
+        label, ns, doc = s_kept[i]
         model = ctx.model_eval(SPEC_HEADER, '(spec_ns %s, check_refines %s)' % (c_ns(ns), c_ns(ns))) if len(ctx.disagreements) < 3 else ''
         try:
             py = c_spec(spec(ns))
@@ -848,28 +1184,129 @@ def _explore(ctx, cases):
                      'spec_ns (coq/Dsl/Spec.v) = the Python flattener spec of harness/c06.py, and compile refines spec_ns')
 
 
+# ------------------------------------------------------------------ malformed DOCUMENTS through every entry point
+def _doc_faults():
+    """(label, document, model) -- model: 'none' = the namespace has no entrypoint object (coq/Dsl/Load.v: N = None),
+    'schema' = rejected by the schema layer (pydantic; not modelled: the predicate alone), 'finding:<class>'"""
+    import copy
+    base = to_doc(_norm(dict(CORPUS)['via_param']))
+
+    def mk(f):
+        d = copy.deepcopy(base)
+        f(d)
+        return d
+    return [
+        ('entrypoint_empty', mk(lambda d: d.__setitem__('entrypoint', None)), 'none'),
+        ('entrypoint_missing', mk(lambda d: d.pop('entrypoint')), 'none'),
+        ('entry_instance_missing', mk(lambda d: d['entrypoint'].pop('entry-instance')), 'schema'),
+        ('entry_instance_null', mk(lambda d: d['entrypoint'].__setitem__('entry-instance', None)), 'schema'),
+        ('execute_empty', mk(lambda d: d['entrypoint'].__setitem__('execute', [])), 'schema'),
+        ('execute_two', mk(lambda d: d['entrypoint']['execute'].append({'target': '<entry-instance>', 'args': {}})), 'schema'),
+        ('execute_args_null', mk(lambda d: d['entrypoint']['execute'][0].__setitem__('args', None)), 'schema'),
+        ('execute_bad_target', mk(lambda d: d['entrypoint']['execute'][0].__setitem__('target', '<other>')), 'schema'),
+        ('list_value', mk(lambda d: d['workflows'][0]['execute'][0]['args'].__setitem__('zz', [1, 2])), 'schema'),
+        ('entry_list_value', mk(lambda d: d['entrypoint']['execute'][0]['args'].__setitem__('zz', [1, 2])), 'schema'),
+        ('unknown_field', mk(lambda d: d['components'][0]['command'].__setitem__('bogus', 1)), 'schema'),
+        ('workflows_null', mk(lambda d: d.__setitem__('workflows', None)), 'schema'),
+        ('param_without_name', mk(lambda d: d['components'][1]['signature']['parameters'].append({'default': 'x'})), 'schema'),
+        ('steps_not_a_mapping', mk(lambda d: d['workflows'][0].__setitem__('steps', ['a'])), 'schema'),
+        # F6f (open): entrypoint without an execute list
+        ('entrypoint_without_execute', mk(lambda d: d['entrypoint'].pop('execute')), 'finding:entrypoint_without_execute'),
+    ]
+
+
+def _explore_docs(ctx):
+    """the rejection half of the property at the level of documents: every entry point must answer a malformed
+    document with a DSLInvalidError (possibly wrapped) that names at least one non-empty location"""
+    ov_terms, ld_terms, ov_kept, ld_kept = [], [], [], []
+    for label, doc, model in _doc_faults():
+        runs = []
+        if model != 'schema':
+            runs.append((None, drive(doc)))     # Namespace(**doc) itself is the schema layer: direct only when it parses
+        for uv in (None, [], [('zz', [V(1)])], [('producer', [L('x')])]):
+            for validate in (True, False):
+                r = drive_conf(doc, None if uv is None else {'global': {n: render_value(v) for n, v in uv}}, validate)
+                runs.append((('conf', uv, validate), r))
+        for mode, impl in runs:
+            ctx.count('invalid:document:' + label)
+            ctx.case(json.dumps(['document', label, doc, mode], sort_keys=True, default=str), True)
+            why = None
+            if impl['kind'] != 'dsl':
+                why = 'malformed document (%s) not rejected with DSLInvalidError: %s' % (label, impl.get('type', impl['kind']))
+            elif not impl['locs'] or not all(impl['locs']):
+                why = 'malformed document (%s) rejected without naming a location' % label
+            if why is not None:
+                ctx.fail({'label': 'document:' + label, 'doc': doc, 'mode': mode, 'impl': impl}, why,
+                         [model.split(':')[1]] if model.startswith('finding:') else [])
+            if model == 'none':
+                if mode is None:
+                    ov_terms.append('(@None ns, @None (list (string * value)), %s)' % c_impl(impl))
+                    ov_kept.append((label, doc, mode, impl))
+                else:
+                    ld_terms.append('(%s, @None ns, %s, %s)' % ('true' if mode[2] else 'false', c_uvars(mode[1]), c_impl(impl)))
+                    ld_kept.append((label, doc, mode, impl))
+    for tms, kp, fn, nm in ((ov_terms, ov_kept, 'check_ov', 'docov'), (ld_terms, ld_kept, 'check_load', 'docload')):
+        for i in ctx.model_mismatches(LOAD_HEADER, tms, fn, chunk=40, name=nm):
+            label, doc, mode, impl = kp[i]
+            ctx.disagree({'label': 'document:' + label, 'doc': doc, 'mode': mode}, impl, tms[i][-600:],
+                         '%s (coq/Dsl/Load.v) on a namespace without entrypoint = the real entry point' % fn)
+
+
+def _conf_mode(ns, rng, fault=False):
+    """a way of loading the namespace through DSLExperimentConfiguration: user variables (scalars bound to text
+    parameters of the entry template; fault: one unknown name) and the validate flag"""
+    texts = [n for n, k in ns.get('kinds', {}).get(ns['entry'], {}).items() if k == 'text']
+    uv = None
+    if fault or rng.random() < 0.6:
+        uv = [(n, [rng.choice([L(rng.choice(WORDS)), V(rng.choice(NUMS)), L('')])]) for n in texts if rng.random() < 0.6]
+        if fault:
+            uv.append(('zz', [V(1)]))
+        rng.shuffle(uv)
+    return ('conf', uv, rng.random() < 0.6)
+
+
 def run(ctx):
     ctx.rule = ('valid namespace with >= 2 component instances and >= 1 producer->consumer edge, or an invalid '
-                '(single-fault) namespace; distinct by rendered document')
+                '(single-fault) namespace or malformed document; distinct by rendered document, override and entry point')
     rng = ctx.rng
-    n_valid, n_mut = (700, 400) if ctx.tier == 'quick' else (5000, 3000)
-    cases = [('corpus:' + k, _norm(ns)) for k, ns in CORPUS]
-    valid = []
-    for _ in range(n_valid):
-        ns = gen_namespace(rng)
-        valid.append(ns)
-        cases.append(('generated', ns))
-    made = 0
-    tries = 0
-    while made < n_mut and tries < n_mut * 40:
-        kind = KINDS[made % len(KINDS)]
-        tries += 1
-        m = mutate(rng.choice(valid), rng, kind)
-        if m is None:
-            continue
-        cases.append((m[1] + ':mutant', m[0]))
-        made += 1
-    _explore(ctx, cases)
+    n_valid, n_mut, n_conf = (700, 400, 90) if ctx.tier == 'quick' else (5000, 3000, 1000)
+    try:
+        cases = []
+        for k, ns in CORPUS:
+            ns = _norm(ns)
+            cases.append(('corpus:' + k, ns))
+            if ns.get('override') is None:
+                for uv in (None, []):
+                    for validate in (True, False):
+                        cases.append(('corpus:' + k, ns, ('conf', uv, validate)))
+        valid = []
+        for _ in range(n_valid):
+            ns = gen_namespace(rng)
+            valid.append(ns)
+            cases.append(('generated', ns))
+        plain = [ns for ns in valid if ns.get('override') is None]
+        for i in range(n_conf):
+            ns = rng.choice(plain)
+            cases.append(('generated', ns, _conf_mode(ns, rng)))
+        for i in range(n_conf // 8):
+            ns = rng.choice(plain)
+            cases.append(('uservar_unknown:mutant', ns, _conf_mode(ns, rng, fault=True)))
+        made = 0
+        tries = 0
+        while made < n_mut and tries < n_mut * 40:
+            kind = KINDS[made % len(KINDS)]
+            tries += 1
+            m = mutate(rng.choice(valid), rng, kind)
+            if m is None:
+                continue
+            cases.append((m[1] + ':mutant', m[0]))
+            if made % 5 == 0 and m[0].get("override") is None and made // 5 < n_conf:
+                cases.append((m[1] + ':mutant', m[0], _conf_mode(m[0], rng)))
+            made += 1
+        _explore(ctx, cases)
+        _explore_docs(ctx)
+    finally:
+        _cleanup()
     # F6d (fixed): sibling component steps that reference each other (a dataflow cycle, outside the generator's
     # domain: it is the graph validation that rejects it) must not make the compiler hang
     cyc = {'entrypoint': {'entry-instance': 'main', 'execute': [{'target': '<entry-instance>', 'args': {}}]},
@@ -887,10 +1324,26 @@ def run(ctx):
 def replay(ctx, path):
     d = json.load(open(path))
     c = d.get('case') or d.get('first', {}).get('case') or {}
+    if 'ns' not in c and str(c.get('label', '')).startswith('document:'):
+        try:
+            _explore_docs(ctx)
+        finally:
+            _cleanup()
+        ctx.failures = [f for f in ctx.failures if f['case'].get('label') == c['label']]
+        for f in ctx.failures:
+            print('REPRODUCED: %s' % f['what'])
+        return 1 if ctx.failures else 0
     if 'ns' not in c:
         print('replay file names no input (proof/correspondence obligation): re-run ./check C06')
         return 2
-    _explore(ctx, [(c.get('label', 'replay'), _norm(c['ns']))])
+    mode = c.get('mode')
+    if mode is not None:
+        mode = ('conf', None if mode[1] is None else [(a[0], [_t(t) for t in a[1]]) for a in mode[1]], mode[2])
+    try:
+        _explore(ctx, [(c.get('label', 'replay'), _norm(c['ns']))] if mode is None
+                 else [(c.get('label', 'replay'), _norm(c['ns']), mode)])
+    finally:
+        _cleanup()
     for f in ctx.failures:
         print('REPRODUCED: %s' % f['what'])
     for f in ctx.disagreements:
